@@ -329,7 +329,7 @@ impl Property for C13 {
     const ID: &'static str = "C13";
     const RULE: &'static str = "generated fault sequences on real loopback sockets: overall timeout T in [150, 500] ms (or unset, or 1 ms i.e. expired before the connection exists, or 2.5 s i.e. far above R), read timeout R either >> T or 100-200 ms; stall point in {server never reads a 24 MiB upload, before any reply byte, \
 inside the status line, inside a header, after the head, inside a chunk-size line, inside chunk data, between chunks, inside a length body, inside a close-delimited body}; stall kind {silent, one byte every r ms with r < R}; redirect chains whose hops \
-are individually fast but together exceed T; and the negative family: responses of all three framings that complete at once, followed by 0..5 further reads some of which happen after T, then drop. Optional schedule perturbation: delays injected at the six \
+are individually fast but together exceed T; a silence longer than R inside the body followed by a drip faster than R with a caller that reads again after every read error that comes before T (everything still ends by T + margin); and the negative family: responses of all three framings that complete at once, followed by 0..5 further reads some of which happen after T, then drop. Optional schedule perturbation: delays injected at the six \
 labelled points of the watchdog / reader (verif-hooks H3). Oracle S1-S4. non-trivial = the stall begins after the head, or drip-feeding, or a redirect chain, or >= 1 read after end-of-body; distinct by case";
 
     fn assumptions() -> Vec<String> {
